@@ -388,7 +388,7 @@ const c02Rule = "rapid-generated put/del/batch/sync/close+reopen histories drive
 func TestC02Main(t *testing.T) {
 	pbt.Main(t, pbt.Spec[C02Scenario]{
 		ID: "C02", Facet: "main", Rule: c02Rule,
-		Quick: 120, Thorough: 4000,
+		Quick: 500, Thorough: 12000,
 		Gen: genC02, Run: runC02,
 	})
 }
